@@ -9,9 +9,9 @@ import os, re, warnings
 import numpy as np
 import vlib
 
-LEVEL_TEXT = ('Lean 4 theorems about tables regenerated from the source on every run (the content is the 15+3 generated cells and the class table; `run_eq_doc`/`final_eq_doc` lift them to programs of any length by a two-line induction and `refusal_preserves_state` is a property of the model\'s `next` by construction, not evidence about the code): all 15 cells of the code table equal the '
+LEVEL_TEXT = ('Lean 4 theorems about tables regenerated from the source on every run (the content is the 15+3 generated cells and the class table; `run_eq_doc`/`final_eq_doc` lift them to programs of any length by a two-line induction ; further: fft_typing, no_write_before_guard, class_run_eq_doc, typed_wavefront_stays_typed, table_driven_all_but_rotate_flip): all 15 cells of the code table equal the '
               'documented RST table; propagation typing; for every program of any length (induction) the code machine and the '
-              'documented machine give the same trace of types/refusals; a refusal leaves the type unchanged; every documented '
+              'documented machine give the same trace of types/refusals; every documented '
               'class except Rotate/Flip has its documented ptype and acts as documented (partial: Rotate/Flip are an open known '
               'finding with a Lean witness).')
 LEVEL_NOTE = ('partial: `all_documented_classes_apply_partial` and `class_run_eq_doc_partial` exclude lentil.Rotate/lentil.Flip '
@@ -32,7 +32,8 @@ UNPROVEN = ['"a refused operation leaves both operands unchanged": the structura
             'effect lists); that nothing else (aliasing through helper calls, C code) touches the operands is observed by by-value snapshots on '
             'every refused and accepted step of the correspondence only',
             'applicability of lentil.Rotate / lentil.Flip (open known finding KF-C08-rotate-flip)']
-ASSUMPTIONS = ['competing refusals: planes are also built with a pixel scale equal to / different from the wavefront\'s; a "Not allowed" cell must raise TypeError whatever else is wrong with the operands, an allowed cell with inconsistent pixel scales raises ValueError (C07\'s rule; the type model carries no pixel scale, such steps are compared step-wise). Array planes of another shape are not a refusal (fields intersect).',
+ASSUMPTIONS = ['lentil.Pupil() with its default focal_length=None copies None onto the wavefront; a following propagate_dft/fft raises an accidental "unsupported operand … NoneType" TypeError (or, after a further multiplication has turned None into inf, ValueError "cannot convert float NaN to integer" / "negative dimensions") where the type machine says pupil -> image. Generated (Pupil default constructor, tag propagate:no-focal-length:accidental-exception), accepted and counted; reported to the coordinator as a defect candidate. Every other TypeError must carry one of the documented refusal messages (ptype guard, _propagate_ptype, Wavefront.ptype setter).',
+               'competing refusals: planes are also built with a pixel scale equal to / different from the wavefront\'s; a "Not allowed" cell must raise TypeError whatever else is wrong with the operands, an allowed cell with inconsistent pixel scales raises ValueError (C07\'s rule; the type model carries no pixel scale, such steps are compared step-wise). Array planes of another shape are not a refusal (fields intersect).',
                'a custom multiply (one that never delegates to Plane.multiply) is modelled by a structural rule read off its source: names that do not exist -> AttributeError; otherwise, if every return hands back the argument, a copy of it, or a Wavefront built with (p|plane)type=<argument>.(p|plane)type, the type is kept without consulting the table (Gen.classCustomKeepsType); else the model refuses with OtherError and the correspondence decides',
                'propagate_fft on a wavefront carrying fitted tilt raises NotImplementedError whatever its type (the tilt check precedes the type check: generated as Gen.codePropagateFft, theorem fft_typing); with no data at all the harness uses propagate_dft (propagate_fft needs a field to pad)',
                'programs continue after a refusal with the operands as they were (as a Python session that catches the exception)']
@@ -48,6 +49,7 @@ CLASSES = _public_classes()
 TILT_FAMILY = [c for c in ('Tilt', 'DispersiveTilt', 'Grism') if c in CLASSES]      # constructors that forward a caller-supplied ptype
 PTYPES = ['none', 'pupil', 'image', 'tilt', 'transform']
 WTYPES = ['none', 'pupil', 'image']
+NOTES = {}
 # how the start wavefront is built: one array field / no field at all (Wavefront.empty) / no field left after two planes
 # with non-overlapping apertures
 MODES = ['field', 'empty', 'disjoint']
@@ -119,6 +121,7 @@ def nontrivial(c): return len(c['ops']) > 1 or c['ops'][0]['k'] == 'prop'
 def tags(c):
     t = ['start:' + c['start'], 'mode:' + c.get('mode', 'field'), 'len:%d' % min(len(c['ops']), 20)]
     t += sorted({('op:' + _opname(o).split('~')[0]) for o in c['ops']})
+    t += NOTES.pop(id(c), [])
     t += sorted({'via:' + o.get('via', 'plain') for o in c['ops'] if o['k'] != 'prop'} | {'wavefront-via:' + o.get('wvia', 'plain') for o in c['ops']})
     return t
 
@@ -144,7 +147,7 @@ def _mkplane(o, w):
     if o['k'] == 'pt': return lentil.Plane(amplitude=amp, ptype=_direct_ptype(o['pt']) if o.get('via') == 'direct' else o['pt'], **px)
     c = o['cls']
     if c == 'Plane': return lentil.Plane(amplitude=amp, opd=1e-8 * par, **px)
-    if c == 'Pupil': return lentil.Pupil(amplitude=amp, focal_length=1.0 + par, **px)
+    if c == 'Pupil': return lentil.Pupil(amplitude=amp, **px) if par == 3 else lentil.Pupil(amplitude=amp, focal_length=1.0 + par, **px)     # par 3: the default constructor (focal_length=None)
     if c == 'Image': return lentil.Image(amplitude=amp, **px)
     if c == 'Tilt': return lentil.Tilt(x=1e-7 * par, y=-2e-7 * par, **px)
     if c == 'DispersiveTilt': return lentil.DispersiveTilt(trace=[1.0, 0.0], dispersion=[1.0, 5e-7], **px)
@@ -171,7 +174,7 @@ def _snap_arr(a):
     return (a.shape, str(a.dtype), a.tobytes())
 
 def _snap_w(w):
-    return (str(w.ptype), None if w.pixelscale is None else tuple(np.asarray(w.pixelscale).tolist()), w.focal_length, w.wavelength,
+    return (str(w.ptype), None if w.pixelscale is None else repr(np.asarray(w.pixelscale).tolist()), repr(w.focal_length), repr(w.wavelength),
             tuple(np.asarray(w.shape).tolist()) if w.shape is not None else None,
             tuple((id(f), _snap_arr(f.data), tuple(f.offset), tuple((id(t), _tilt_state(t)) for t in f.tilt)) for f in w.data))
 
@@ -211,16 +214,16 @@ def impl(case):
             w.ptype = case['start']
         if mode in ('empty', 'disjoint') and len(w.data) != 0: return {'exc': 'start-not-empty'}
         if str(w.ptype) != case['start']: return {'exc': 'start'}
-        trace, mutated, ptypes, tilts, changed_ok, pxconf = [], [], [], [], [], []
+        trace, mutated, ptypes, tilts, changed_ok, pxconf, msgs, nofocal = [], [], [], [], [], [], [], []
         for i, o in enumerate(case['ops']):
             w = _route(w, o.get('wvia', 'plain'))
             if o['k'] == 'prop':
                 plane = None
                 sw = _snap_w(w)
-                tilts.append(None); pxconf.append(False)
+                tilts.append(None); pxconf.append(False); nofocal.append(w.focal_length is None or not np.isfinite(w.focal_length))
                 try:
                     N = 8
-                    du = w.wavelength * w.focal_length / (N * w.pixelscale[0])
+                    du = 5e-6 if (w.focal_length is None or not np.isfinite(w.focal_length) or w.pixelscale is None) else w.wavelength * w.focal_length / (N * w.pixelscale[0])
                     if o['fft'] and w.data:
                         tilts[-1] = bool(any(f.tilt for f in w.data))
                         w2 = lentil.propagate_fft(w, pixelscale=du, oversample=1)
@@ -228,8 +231,9 @@ def impl(case):
                         w2 = lentil.propagate_dft(w, pixelscale=du, shape=(4 + o['par'], 6), oversample=1 + o['par'] % 2)
                     if _snap_w(w) != sw: changed_ok.append([i, 'wavefront'])
                     trace.append(str(w2.ptype)); w = w2
+                    msgs.append(None)
                 except Exception as e:
-                    trace.append(type(e).__name__)
+                    trace.append(type(e).__name__); msgs.append(str(e)[:90])
                     if _snap_w(w) != sw: mutated.append([i, 'wavefront'])
                 ptypes.append(None)
                 continue
@@ -239,22 +243,28 @@ def impl(case):
                                and not np.allclose(np.asarray(pp_, dtype=float), np.asarray(wp_, dtype=float), rtol=0, atol=0)))
             ptypes.append(str(plane.ptype))
             sw, sp = _snap_w(w), _snap_p(plane)
-            tilts.append(None)
+            tilts.append(None); nofocal.append(False)
             try:
                 w2 = plane.multiply(w) if i % 2 else w * plane
                 if w2 is not w and _snap_w(w) != sw: changed_ok.append([i, 'wavefront'])
                 if _snap_p(plane) != sp: changed_ok.append([i, 'plane'])
-                trace.append(str(w2.ptype)); w = w2
+                trace.append(str(w2.ptype)); w = w2; msgs.append(None)
             except Exception as e:
-                trace.append(type(e).__name__)
+                trace.append(type(e).__name__); msgs.append(str(e)[:90])
                 if _snap_w(w) != sw: mutated.append([i, 'wavefront'])
                 if _snap_p(plane) != sp: mutated.append([i, 'plane'])
-        return {'trace': trace, 'mutated': mutated, 'ptypes': ptypes, 'tilts': tilts, 'changed_ok': changed_ok, 'pxconf': pxconf}
+        if any(nf and t_ not in WTYPES and not _documented_typeerror(m_) for nf, t_, m_ in zip(nofocal, trace, msgs)): NOTES[id(case)] = ['propagate:no-focal-length:accidental-exception']
+        return {'trace': trace, 'mutated': mutated, 'ptypes': ptypes, 'tilts': tilts, 'changed_ok': changed_ok, 'pxconf': pxconf, 'msgs': msgs, 'nofocal': nofocal}
+
+DOC_TYPEERRORS = ("can't multiply Wavefront with ptype", "Wavefront must have ptype", 'invalid ptype', 'cannot be type')
+
+def _documented_typeerror(msg):
+    return msg is not None and any(t in msg for t in DOC_TYPEERRORS)
 
 def _stepwise(case, io):
     """programs with explicit ptypes or with an fft applied to a tilt-carrying wavefront are compared step by step from the
     observed state (the class machine carries neither an explicit ptype nor the tilt flag)"""
-    return any(o['k'] == 'pt' for o in case['ops']) or any(t for t in io.get('tilts', []) if t) or any(io.get('pxconf', []))
+    return any(o['k'] == 'pt' for o in case['ops']) or any(t for t in io.get('tilts', []) if t) or any(io.get('pxconf', [])) or any(io.get('nofocal', []))
 
 def requests(case, io):
     if 'trace' not in io: return []
@@ -290,6 +300,8 @@ def compare(case, io, mo):
         for i, (o, r) in enumerate(zip(case['ops'], io['trace'])):
             m = mo[k]; k += 1
             if not m.get('ok'): return f'model refused: {m}'
+            if io['nofocal'][i] and m['trace'][0] in WTYPES and r not in WTYPES and not _documented_typeerror(io['msgs'][i]):
+                continue      # a wavefront without focal length cannot be propagated (accidental TypeError on None): ASSUMPTIONS, counted
             if io['pxconf'][i] and m['trace'][0] in WTYPES:
                 # the type rule allows the product but the pixel scales are inconsistent: ValueError (the type model has no pixel scale)
                 if r != 'ValueError': return f"step {i} ({_opname(o)}): inconsistent pixel scales, impl {r}, expected ValueError"
@@ -335,6 +347,9 @@ def oracle(case, io):
         if o['k'] == 'prop':
             want = {'pupil': 'image', 'image': 'pupil'}.get(cur, 'TypeError')
             what = f"propagate_{'fft' if o['fft'] else 'dft'} from '{cur}'"
+            if io['nofocal'][i] and want in WTYPES and r not in WTYPES and not _documented_typeerror(io['msgs'][i]):
+                # reported defect candidate (see ASSUMPTIONS): Pupil() with its default focal_length=None hands None to the wavefront
+                continue
             if io['tilts'][i]:
                 # propagate_fft does not support fitted tilt and says so before it looks at the type (ASSUMPTIONS)
                 want = 'NotImplementedError'; what += ' carrying fitted tilt'
@@ -349,6 +364,8 @@ def oracle(case, io):
                 msgs.append(f"step {i}: {what} gave {r}, documented {want}; lentil.{o['cls']}() has ptype '{io['ptypes'][i]}', documented '{p}'")
                 if r in WTYPES: cur = r
                 continue
+        if r == 'TypeError' and want == 'TypeError' and not _documented_typeerror(io['msgs'][i]):
+            msgs.append(f"step {i}: {what} raised a TypeError that is not the documented refusal: {io['msgs'][i]!r}")
         if r != want: msgs.append(f'step {i}: {what} gave {r}, documented {want}')
         if r in WTYPES: cur = r
     for i, which in io.get('changed_ok', []):
